@@ -498,9 +498,19 @@ func (w *c02World) concretise(rng *rand.Rand, c *c02Case) {
 		k.Marker = fmt.Sprintf("c02-upstream-%d", c.ID)
 	}
 	k.RRules = c02RSlots{Custom: []string{}, RL1: []string{}}
-	k.RSubj = strings.TrimSuffix(k.CNAME, ".")
-	if c.Ups == "addr" || (c.Ups == "cname" && rng.Intn(2) == 0) {
+	// the response rules match the CNAME target or, for an IPv4 address in an
+	// A record or an HTTPS hint, the address
+	canIP, hasCNAME := c.QT == "A" || c.QT == "HTTPS", c.Ups == "cname"
+	switch {
+	case hasCNAME && !(canIP && rng.Intn(2) == 0):
+		k.RSubj = strings.TrimSuffix(k.CNAME, ".")
+	case canIP && (c.Ups == "addr" || c.Ups == "cname"):
 		k.RSubj = k.Marker
+	default:
+		if v.RC != "none" || v.RR != "none" {
+			panic(fmt.Sprintf("c02: case %d: response rules need an upstream answer they can match", c.ID))
+		}
+		k.RSubj = ""
 	}
 	rrule := func(cls string) []string {
 		a := c02Pick(rng, "||", "||", "|")
